@@ -4,6 +4,7 @@ Seam: pkgcore.vdb.contents.ContentsFile(path, create=True) + update + flush (exa
 vdb.repo_ops does), read back with a fresh ContentsFile(path) (what vdb.ondisk does).
 """
 
+import itertools
 import os
 import shutil
 import tempfile
@@ -30,8 +31,18 @@ RULE += (
     "KeyboardInterrupt (process alive, the code's own error handling runs; afterwards old-or-new, and a later "
     "fault-free run must give the complete new state)."
 )
+RULE += (
+    " Paths and symlink targets also carry each character str.splitlines() breaks at but a line iteration does not "
+    "(U+2028, U+2029, U+0085, \\x0b, \\x0c, \\x1c-\\x1e), inside and at the end. Operation histories on one "
+    "ContentsFile object: {open an existing CONTENTS, create one and flush it} followed by rounds of one change "
+    "(add a new path, remove a path, replace the entry at a present path with other md5/mtime, other symlink "
+    "target/mtime, or another entry type, through add() and update()) + flush(); after every flush a fresh reader "
+    "must see exactly the in-memory set."
+)
 ASSUMPTIONS = [
-    "Excl: paths or targets containing a line break (\\n, \\r): the format is line based",
+    "Excl: paths or targets containing \\n or \\r: the format is line based, and the file is read in universal-newline text mode, so a "
+    "\\r inside a path ends the line on read (observed on HEAD: [('dir', '/a\\rb')] -> ValueError unknown entry type 'b'; [('dir', '/a\\r')] -> '/a'); "
+    "the other characters str.splitlines() breaks at (U+2028, U+2029, U+0085, \\x0b, \\x0c, \\x1c-\\x1e) ARE in the alphabet",
     "Excl: symlink *locations* containing '->' as a separate word: 'sym A -> B -> C t' is inherently ambiguous in the "
     "format (portage resolves it the same way, first '->' wins); '->' as a separate word is covered in symlink targets "
     "and in file/dir/fifo/device paths, and glued ('a->b') everywhere",
@@ -43,9 +54,10 @@ ASSUMPTIONS = [
     "a stale .update.CONTENTS left behind by a crash is not an error for this property",
 ]
 BOUNDS = {
-    "quick": "universe 562 entries (+ the empty set): all singles; all pairs of a 75-entry core (distinct paths); all triples of a "
-    "36-entry core (~9.3k round trips); crash sweep: all ordered pairs of 14 scenario sets incl. absent/empty = 182 scenarios x (5 crash points + 1 torn write)",
-    "thorough": "all singles; all pairs of the whole 562-entry universe; all triples of a 75-entry core (~204k round trips); crash sweep over all ordered pairs of 21 scenario sets = 420 scenarios",
+    "quick": "universe 618 entries (+ the empty set): all singles; all pairs of a 75-entry core (distinct paths); all triples of a "
+    "36-entry core (~9.4k round trips); 2 starts x all valid histories of <=2 rounds over 15 operations (~480 histories); crash sweep: all ordered "
+    "pairs of 14 scenario sets incl. absent/empty = 182 scenarios x (5 crash points + crash-after-rename + torn write + 2 write faults per write call)",
+    "thorough": "all singles; all pairs of the whole universe; all triples of a 75-entry core; histories of <=3 rounds; crash sweep over all ordered pairs of 21 scenario sets = 420 scenarios",
 }
 
 # ---------------------------------------------------------------------------------------------
@@ -68,6 +80,8 @@ NAMES = [
 TARGETS = ["t", "t u", "../a  b", "t -> u", "->", "é", "t ", " t", "x 12"]
 MD5S = [0, 2**128 - 1, 0xD41D8CD98F00B204E9800998ECF8427E]
 MTIMES = [0, 1, 2**31, 1.9]
+# characters str.splitlines() breaks at but a text-file line iteration does not (\r excluded, see ASSUMPTIONS)
+LINEBREAKS = ["\u2028", "\u2029", "\x85", "\x0b", "\x0c", "\x1c", "\x1d", "\x1e"]
 DEVROOT = "/verif-c24-no-such-dir"  # device paths below it do not exist on the host
 DEV_MISSING = DEVROOT + "/a"
 DEV_LIVE = "/dev/null"
@@ -101,7 +115,22 @@ def universe():
     for p in _paths():
         ents.append(("dev", DEVROOT + p))
     ents.append(("dev", DEV_LIVE))
+    ents.extend(linebreak_entries())
     return ents
+
+
+def linebreak_entries():
+    """every kind with each line-break look-alike inside and at the end of a path / symlink target"""
+    out = []
+    for ch in LINEBREAKS:
+        out.append(("obj", "/a" + ch + "b", 0, 1))
+        out.append(("dir", "/a" + ch + "b"))
+        out.append(("dir", "/a" + ch))
+        out.append(("fif", "/" + ch + "a"))
+        out.append(("dev", DEVROOT + "/a" + ch + "b"))
+        out.append(("sym", "/l", "t" + ch + "u", 0))
+        out.append(("sym", "/l" + ch + "m", "t" + ch, 1))
+    return out
 
 
 def core(n):
@@ -214,6 +243,8 @@ def features(entries):
                 f.add(tag + "-arrow-glued")
             if any(ord(ch) > 127 for ch in base):
                 f.add(tag + "-unicode")
+            if any(ch in base for ch in LINEBREAKS):
+                f.add(tag + "-linebreak-lookalike")
         if e[0] in ("obj", "sym") and e[-1] != int(e[-1]):
             f.add("float-mtime")
         if e[0] == "dev" and e[1] != DEV_LIVE:
@@ -315,6 +346,112 @@ def _short(entries):
     return repr([list(e) for e in entries])[:300]
 
 
+# operation histories on one ContentsFile object ----------------------------------------------------
+
+HIST_BASE = [("obj", "/a", 0, 0), ("sym", "/l", "t", 0), ("dir", "/d")]
+HIST_OPS = [
+    ["add", ["obj", "/n", 1, 1]],  # new path
+    ["add", ["dir", "/n2"]],  # new path
+    ["remove", "/a"],
+    ["remove", "/l"],
+    ["remove", "/d"],
+    ["add", ["obj", "/a", 2**128 - 1, 5]],  # same path: other md5 and mtime
+    ["update", ["obj", "/a", 0, 7]],  # same path: other mtime only, through update()
+    ["add", ["obj", "/a", 1, 0]],  # same path: other md5 only
+    ["add", ["sym", "/a", "t", 0]],  # file -> symlink
+    ["add", ["obj", "/l", 0, 0]],  # symlink -> file
+    ["update", ["sym", "/l", "u", 0]],  # same path: other target
+    ["add", ["sym", "/l", "t", 9]],  # same path: other symlink mtime
+    ["add", ["obj", "/d", 0, 0]],  # dir -> file
+    ["add", ["dir", "/a"]],  # file -> dir
+    ["add", ["fif", "/d"]],  # dir -> fifo
+]
+HIST_STARTS = ["open-existing", "create-flush"]
+
+
+def hist_valid(ops):
+    """a remove must name a path that is there (removing an absent path raises KeyError by contract)"""
+    paths = {e[1] for e in HIST_BASE}
+    for op in ops:
+        if op[0] == "remove":
+            if op[1] not in paths:
+                return False
+            paths.discard(op[1])
+        else:
+            paths.add(op[1][1])
+    return True
+
+
+def check_history(path, start, ops):
+    """{open an existing CONTENTS | create one and flush it}, then rounds of (one change, flush()): after every flush a
+    fresh reader must see exactly the in-memory set. -> (messages, class names)"""
+    from pkgcore.vdb.contents import ContentsFile
+
+    try:
+        os.unlink(path)
+    except FileNotFoundError:
+        pass
+    names = {"hist:" + start, f"hist:depth-{len(ops)}"}
+    try:
+        if start == "open-existing":
+            write_set(path, HIST_BASE)
+            c = ContentsFile(path, mutable=True)
+        else:
+            c = ContentsFile(path, mutable=True, create=True)
+            c.update(_mk(e) for e in HIST_BASE)
+            c.flush()
+        m = {e[1]: e for e in HIST_BASE}
+        got = read_set(path)
+        if got != model(list(m.values())):
+            return [f"{start}: base set {_short(HIST_BASE)} reads back as {got!r}"], names
+        for i, op in enumerate(ops):
+            if op[0] == "remove":
+                c.remove(op[1])
+                del m[op[1]]
+                names.add("hist:remove")
+            else:
+                e = tuple(op[1])
+                prev = m.get(e[1])
+                if op[0] == "add":
+                    c.add(_mk(e))
+                else:
+                    c.update([_mk(e)])
+                m[e[1]] = e
+                if prev is None:
+                    names.add("hist:new-path")
+                elif prev[0] != e[0]:
+                    names.add(f"hist:replace-kind-{prev[0]}-to-{e[0]}")
+                elif prev == e:
+                    names.add("hist:replace-identical")
+                else:
+                    names.add("hist:replace-attrs-" + e[0])
+            c.flush()
+            got = read_set(path)
+            exp = model(list(m.values()))
+            if got != exp:
+                names.add("hist:MISMATCH")
+                if isinstance(got, dict):
+                    diff = {k: (exp.get(k, "<absent>"), got.get(k, "<absent>")) for k in set(exp) | set(got) if exp.get(k) != got.get(k)}
+                else:
+                    diff = got
+                return [
+                    f"{start} {_short(HIST_BASE)}, then {ops!r} with a flush() after each: after step {i + 1} a fresh reader does not see the "
+                    f"in-memory set; (expected, read) per path: {diff!r}"[:900]
+                ], names
+    except Exception as e:
+        return [f"{start}, {ops!r}: raised {type(e).__name__}: {e}"[:900]], names
+    return [], names
+
+
+def hist_space(tier, start, i):
+    depth = 2 if tier == "quick" else 3
+    out = [[HIST_OPS[i]]]
+    for d in range(2, depth + 1):
+        for rest in itertools.product(HIST_OPS, repeat=d - 1):
+            out.append([HIST_OPS[i]] + list(rest))
+    return [ops for ops in out if hist_valid(ops)]
+
+
 # crash sweep -------------------------------------------------------------------------------
 
 
@@ -414,6 +551,9 @@ def tasks(tier):
     ns = len(scenario_sets(tier))
     for i in range(ns):
         out.append(("sweep", tier, i))
+    for start in HIST_STARTS:
+        for i in range(len(HIST_OPS)):
+            out.append(("hist", tier, start, i))
     return out
 
 
@@ -446,6 +586,17 @@ def work(task):
                 for k, x in c.items():
                     classes[k] = classes.get(k, 0) + x
             samples = [{"sweep_old": old, "sweep_new": sets[2]}]
+        elif kind == "hist":
+            path = os.path.join(base, "CONTENTS")
+            space = hist_space(task[1], task[2], task[3])
+            for ops in space:
+                evals += 1
+                msgs, names = check_history(path, task[2], ops)
+                for k2 in names:
+                    classes[k2] = classes.get(k2, 0) + 1
+                if msgs:
+                    viol.append({"kind": "hist", "start": task[2], "ops": ops, "msg": msgs[0]})
+            samples = [{"start": task[2], "ops": space[-1]}]
         else:
             path = os.path.join(base, "CONTENTS")
             if kind == "single":
@@ -490,6 +641,9 @@ def replay(case):
     try:
         if case["kind"] == "rt":
             msgs, _ = check_roundtrip(os.path.join(base, "CONTENTS"), [tuple(e) for e in case["entries"]])
+            return msgs
+        if case["kind"] == "hist":
+            msgs, _ = check_history(os.path.join(base, "CONTENTS"), case["start"], case["ops"])
             return msgs
         scr = sw.Scratch(base)
         old = None if case["old"] is None else [tuple(e) for e in case["old"]]
